@@ -1,5 +1,51 @@
 package main
 
-func runFmt(in, out string)     {}
-func runTempDir(in, out string) {}
-func runAuditRT(in, out string) {}
+import (
+	"bufio"
+	"encoding/json"
+	"fmt"
+	"os"
+	"strings"
+
+	sp "github.com/scipipe/scipipe"
+)
+
+func runFmt(in, out string)     { runFmtImpl(in, out) }
+func runTempDir(in, out string) { runTempDirImpl(in, out) }
+
+// runAuditRT: for every data file listed in `list` (paths relative to the
+// current directory) load its audit record through the library and write it
+// back through the library; the original file is kept as <path>.audit.json.orig
+// so that the harness can compare both as JSON values.
+func runAuditRT(list, _ string) {
+	sp.InitLogError()
+	f, err := os.Open(list)
+	if err != nil {
+		fmt.Fprintln(os.Stderr, err)
+		os.Exit(64)
+	}
+	defer f.Close()
+	sc := bufio.NewScanner(f)
+	n := 0
+	for sc.Scan() {
+		p := strings.TrimSpace(sc.Text())
+		if p == "" {
+			continue
+		}
+		ip, err := sp.NewFileIP(p)
+		if err != nil {
+			fmt.Println("AUDITRT-ERROR", p, err)
+			continue
+		}
+		ai := ip.AuditInfo()
+		_ = ai
+		if err := os.Rename(p+".audit.json", p+".audit.json.orig"); err != nil {
+			fmt.Println("AUDITRT-ERROR", p, err)
+			continue
+		}
+		ip.WriteAuditLogToFile()
+		n++
+	}
+	b, _ := json.Marshal(map[string]int{"roundtrips": n})
+	fmt.Println("AUDITRT-DONE", string(b))
+}
